@@ -459,6 +459,15 @@ def main(chk: lib.Check) -> int:
     for x in leg:
         x["seed"] = chk.seed
     recs += leg
+    # the same vocabularies built in DECREASING size order inside each worker process (and once more in a scrambled order):
+    # a vocabulary must not depend on which other vocabularies were built earlier in the process
+    desc = [(m, n, chk.seed + 1, 2, False) for n in range(NMAX, 0, -1) for m in MODES]
+    leg2 = lib.pmap(obs_legacy, desc, chunksize=len(desc) // 8 + 1)
+    scr = [(m, n, chk.seed + 2, 2, False) for n in [40, 3, 17, 2, 50, 7, 1, 23, 4, 12, 5, 33, 6, 9] for m in MODES]
+    leg2 += lib.pmap(obs_legacy, [scr], chunksize=1) if False else [obs_legacy(a) for a in scr]
+    for x in leg2:
+        x["seed"] = chk.seed + 1
+    recs += leg2
     recs += lib.pmap(obs_legacy_prefix, list(range(1, NMAX + 1)), chunksize=2)
     VL = _lib()[0]
     n_vl = len(VL)
